@@ -263,4 +263,71 @@ B("r3-cmake-working-directory", "C19", "C19-R2",
 B("r3-exclude-filters-set", ["C15", "C17"], ["C15-R3", "C17-R4"],
   (INIT, "    settings_obj.input.exclude_filters = list(\n        settings[\"input\"][\"exclude_filters\"].all_contents())", "    settings_obj.input.exclude_filters = list(set(\n        settings[\"input\"][\"exclude_filters\"].all_contents()))"))
 
+# ------------------------------------------------------------------ round-4 rules: benign twins and direct breakers
+G("r4-match-only-cmake-files-ci", ALL_FS,
+  (INIT, "                if spec.match_file(os.path.join(root, file)):\n                    filenames.remove(file)", "                if file.lower().endswith(\".cmake\") and spec.match_file(os.path.join(root, file)):\n                    filenames.remove(file)"))
+B("r4-match-only-cmake-files-cs", "C15", "C15-R3",
+  (INIT, "                if spec.match_file(os.path.join(root, file)):\n                    filenames.remove(file)", "                if file.endswith(\".cmake\") and spec.match_file(os.path.join(root, file)):\n                    filenames.remove(file)"))
+G("r4-page-call-try-reraise", ALL_FS,
+  (INIT, "                    document_single_file(\n                        os.path.join(\n                            root,\n                            file),\n                        input_path,\n                        new_settings)\n",
+   "                    try:\n                        document_single_file(os.path.join(root, file), input_path, new_settings)\n                    except Exception:\n                        logger.error(f\"Failed to document {file}\")\n                        raise\n"))
+B("r4-page-call-try-swallow", ["C14", "C06"], ["C14-R8", "C06-R4"],
+  (INIT, "                    document_single_file(\n                        os.path.join(\n                            root,\n                            file),\n                        input_path,\n                        new_settings)\n",
+   "                    try:\n                        document_single_file(os.path.join(root, file), input_path, new_settings)\n                    except Exception:\n                        logger.error(f\"Failed to document {file}\")\n"))
+B("r4-info-log-in-documenter", ["C18", "C07"], ["C18-R3", "C07-R11"],
+  (DOC, "        self.process_docs(self.aggregator.documented)\n", "        logging.getLogger(__name__).info(\"processing\")\n        self.process_docs(self.aggregator.documented)\n"))
+B("r4-getcwd-prefix", "C17", "C17-R2",
+  (INIT, "        last_dir_element = os.path.basename(os.path.normpath(input_file))", "        last_dir_element = os.path.basename(os.path.normpath(input_file)) or os.path.basename(os.getcwd())"))
+G("r4-index-kw-in-try-valueerror", ["C05", "C11", "C02"],
+  (AGG, "        self.consumed: List[ParserRuleContext] = []", "        self.consumed: List[ParserRuleContext] = []\n        try:\n            self._probe = [\"a\"].index(\"a\")\n        except ValueError:\n            self._probe = -1"))
+
+# ------------------------------------------------------------------ renames of locals (no rule may depend on a local's name)
+ALLP = [f"C{n:02d}" for n in range(1, 21)]
+G("ren-init-prefix", ALLP, (INIT, "prefix", "name_prefix"), all=True, word=True)
+G("ren-init-new-settings", ALLP, (INIT, "new_settings", "per_input_settings"), all=True, word=True)
+G("ren-init-input-path", ALLP, (INIT, "input_path", "abs_input"), all=True, word=True)
+G("ren-init-output-path", ALLP, (INIT, "output_path", "out_dir"), all=True, word=True)
+G("ren-init-spec", ALLP, (INIT, "spec", "exclude_spec"), all=True, word=True)
+G("ren-init-recursive", ALLP, (INIT, "recursive", "descend"), all=True, word=True)
+G("ren-init-root", ALLP, (INIT, "root", "current_dir"), all=True, word=True)
+G("ren-init-filenames", ALLP, (INIT, "filenames", "names"), all=True, word=True)
+G("ren-init-settings-obj", ALLP, (INIT, "settings_obj", "cfg"), all=True, word=True)
+G("ren-init-settings-dict", ALLP, (INIT, "settings_dict", "validated"), all=True, word=True)
+G("ren-init-header-name", ALLP, (INIT, "header_name", "page_title"), all=True, word=True)
+G("ren-init-module-name", ALLP, (INIT, "module_name", "mod_name"), all=True, word=True)
+G("ren-doc-docs", ALLP, (DOC, "docs", "entries"), all=True, word=True)
+G("ren-doc-module-docs", ALLP, (DOC, "module_docs", "modules_found"), all=True, word=True)
+G("ren-agg-params", ALLP, (AGG, "params", "arguments"), all=True, word=True)
+G("ren-agg-clazz", ALLP, (AGG, "clazz", "owner_class"), all=True, word=True)
+G("ren-agg-docstring", ALLP, (AGG, "docstring", "doc_text"), all=True, word=True)
+G("ren-agg-command", ALLP, (AGG, "command", "cmd_name"), all=True, word=True)
+G("ren-dt-d", ALLP, (DT, "d", "directive"), all=True, word=True)
+G("ren-rst-document-string", ALLP, (RW, "document_string", "rendered"), all=True, word=True)
+
+G("ren-init-args", ALLP, (INIT, "args", "argv"), all=True, word=True)
+G("ren-init-parser", ALLP, (INIT, "parser", "arg_parser"), all=True, word=True)
+G("ren-init-settings", ALLP, (INIT, "settings", "conf"), all=True, word=True)
+G("ren-init-subdirs", ALLP, (INIT, "subdirs", "child_dirs"), all=True, word=True)
+G("ren-init-file", ALLP, (INIT, "file", "cmake_path"), all=True, word=True)
+G("ren-init-input-file", ALLP, (INIT, "input_file", "given_path"), all=True, word=True)
+G("ren-init-index", ALLP, (INIT, "index", "dir_index"), all=True, word=True)
+G("ren-init-toctree", ALLP, (INIT, "toctree", "toc"), all=True, word=True)
+G("ren-init-auto-documenter", ALLP, (INIT, "auto_documenter", "documenter"), all=True, word=True)
+G("ren-init-output-writer", ALLP, (INIT, "output_writer", "page"), all=True, word=True)
+G("ren-doc-tree", ALLP, (DOC, "tree", "parse_tree"), all=True, word=True)
+G("ren-doc-title", ALLP, (DOC, "title", "page_title"), all=True, word=True)
+G("ren-agg-lines", ALLP, (AGG, "lines", "raw_lines"), all=True, word=True)
+G("ren-agg-cleaned-lines", ALLP, (AGG, "cleaned_lines", "out_lines"), all=True, word=True)
+G("ren-agg-name", ALLP, (AGG, "name", "entry_name"), all=True, word=True)
+G("ren-agg-expect-fail", ALLP, (AGG, "expect_fail", "xfail"), all=True, word=True)
+G("ren-agg-last-element", ALLP, (AGG, "last_element", "top"), all=True, word=True)
+G("ren-agg-def-params", ALLP, (AGG, "def_params", "definition_args"), all=True, word=True)
+G("ren-agg-ctx", ALLP, (AGG, "ctx", "context"), all=True, word=True)
+G("ren-dt-param-list", ALLP, (DT, "param_list", "shown"), all=True, word=True)
+G("ren-dt-note", ALLP, (DT, "note", "admonition"), all=True, word=True)
+G("ren-dt-writer", ALLP, (DT, "writer", "out"), all=True, word=True)
+G("ren-rst-element", ALLP, (RW, "element", "item"), all=True, word=True)
+G("ren-rst-option", ALLP, (RW, "option", "opt"), all=True, word=True)
+G("ren-cfg-input-dict", ALLP, (CFG, "input_dict", "validated"), all=True, word=True)
+
 VARIANTS = [v for v in VARIANTS if v is not None]
